@@ -3,7 +3,8 @@ PLAN = {
     "quick": [replays("C10"), tape("C10", 160000, size=600)],
     "thorough": [replays("C10"), tape("C10", 2000000, size=600)],
     "class_floors": {"top:model": 0.08, "top:component": 0.08, "top:variable": 0.04, "top:units": 0.05, "top:reset": 0.015, "top:import_source": 0.02,
-                     "permuted-inside": 0.1, "irrelevant:equivalence-edit": 0.02, "irrelevant:outside-the-entity": 0.02, "depth:2": 0.05, "probe-known": 0.02},
+                     "permuted-inside": 0.1, "irrelevant:equivalence-edit": 0.02, "irrelevant:outside-the-entity": 0.02, "depth:2": 0.05, "probe-known": 0.02,
+                     "local-import-reference": 0.1, "mut:comp.local-import-ref": 0.02, "mut:units.local-import-ref": 0.01, "mut:comp.import-source-removed": 0.002},
 }
 CLAIM = {
     "engine": "rapidcheck-tape",
